@@ -423,4 +423,261 @@ theorem joins (fol : List Tok) (hb : Bd d 2 fol = true) :
     simp only [h1]
     simpa using h2
 
+
+/-! ### WHERE / HAVING -/
+theorem optOr (kw : String) (hk : (opTok kw).srcEqUp kw = true) (k : Nat) (hrk : rank kw ≤ k) (o : Option Expr) (ho : optFrag d o = true)
+    (fol : List Tok) (hb : Bd d k fol = true) :
+    OkAt (fun f => pOptOr d f kw (toksOpt d kw o ++ fol)) (20 * sizeL (toksOpt d kw o) + 16) (o, fol) := by
+  intro f hf'
+  obtain ⟨g, rfl⟩ : ∃ g, f = g + 1 := ⟨f - 1, by omega⟩
+  cases o with
+  | none => simp [toksOpt, pOptOr, bd_search hb kw hrk]
+  | some e =>
+    simp only [optFrag] at ho
+    simp only [toksOpt, sizeL_cons] at hf'
+    have hs : searchStrUp (opTok kw :: (toksE d noX e ++ fol)) kw = true := by simpa [searchStrUp] using hk
+    have h2 : pOr d g (toksE d noX e ++ fol) = .ok (e, fol) := C02.tparse d noX e ho fol (bd_stops hb) g (by omega)
+    show pOptOr d (g + 1) kw (toksOpt d kw (some e) ++ fol) = _
+    unfold pOptOr
+    simp [toksOpt, hs, h2]
+
+/-! ### key lists (GROUP BY, ORDER BY): compute level, the printer's `wrap e 8` -/
+theorem key8 (e : Expr) (he : Frag d e = true) (fol : List Tok) (hs : stopLE d 8 fol = true) :
+    OkAt (fun f => pCompute d f (W d noX e 8 ++ fol)) (20 * sizeL (W d noX e 8) + 2) (e, fol) :=
+  ((C02.rt d noX e he).at 8 (by omega)).s8 (by omega) fol hs
+theorem key8_head (e : Expr) (he : Frag d e = true) : ∃ t ts', W d noX e 8 = t :: ts' := by
+  obtain ⟨t, ts', h, _⟩ := (C02.rt d noX e he).headW 8
+  exact ⟨t, ts', h⟩
+theorem comma_stop8 (x : List Tok) : stopLE d 8 (commaTok :: x) = true := stopLE_mono (comma_stops (d := d) x) (by omega)
+theorem keysTail_shape (es : List Expr) : toksKeysTail d es = [] ∨ ∃ x, toksKeysTail d es = commaTok :: x := by
+  cases es with
+  | nil => exact Or.inl rfl
+  | cons c cs => exact Or.inr ⟨_, rfl⟩
+theorem stop8_tail {tl fol : List Tok} (h : tl = [] ∨ ∃ x, tl = commaTok :: x) (hs : stopLE d 8 fol = true) : stopLE d 8 (tl ++ fol) = true := by
+  rcases h with rfl | ⟨x, rfl⟩
+  · exact hs
+  · exact comma_stop8 _
+theorem computeList (fol : List Tok) (hs : stopLE d 8 fol = true) (hc : searchStr fol "," = false) :
+    ∀ (es : List Expr), (∀ e ∈ es, Frag d e = true) → ∀ acc,
+    OkAt (fun f => pComputeList d f acc (toksKeysTail d es ++ fol)) (20 * sizeL (toksKeysTail d es) + 3) (acc ++ es, fol) := by
+  intro es
+  induction es with
+  | nil =>
+    intro _ acc f hf'
+    obtain ⟨g, rfl⟩ : ∃ g, f = g + 1 := ⟨f - 1, by omega⟩
+    simp [toksKeysTail, pComputeList, hc]
+  | cons e es ih =>
+    intro hes acc f hf'
+    simp only [toksKeysTail, sizeL_cons, sizeL_append] at hf'
+    have hsz : commaTok.size = 1 := by decide
+    obtain ⟨g, rfl⟩ : ∃ g, f = g + 1 := ⟨f - 1, by omega⟩
+    have h1 : pCompute d g (W d noX e 8 ++ (toksKeysTail d es ++ fol)) = .ok (e, toksKeysTail d es ++ fol) :=
+      key8 e (hes e (by simp)) _ (stop8_tail (keysTail_shape es) hs) g (by omega)
+    have h2 := ih (fun c' hc' => hes c' (by simp [hc'])) (acc ++ [e]) g (by omega)
+    show pComputeList d (g + 1) acc (toksKeysTail d (e :: es) ++ fol) = _
+    unfold pComputeList
+    simp only [toksKeysTail, List.cons_append, List.append_assoc, comma_search, if_true, List.drop_succ_cons, List.drop_zero, h1]
+    simpa using h2
+
+theorem groupBy (gb : Option GroupBy) (hg : groupOK d gb = true) (fol : List Tok) (hb : Bd d 4 fol = true) :
+    OkAt (fun f => pGroupBy d f (toksGroup d gb ++ fol)) (20 * sizeL (toksGroup d gb) + 6) (gb, fol) := by
+  have r4 : rank "GROUP" = 4 := by decide
+  have r0 : rank "GROUPING" = 0 := by decide
+  have rw0 : rank "WITH" = 0 := by decide
+  have hs8 : stopLE d 8 fol = true := stopLE_mono (bd_stops hb) (by omega)
+  cases gb with
+  | none =>
+    intro f hf'
+    obtain ⟨g, rfl⟩ : ∃ g, f = g + 1 := ⟨f - 1, by omega⟩
+    simp [toksGroup, pGroupBy, bd_search2 hb "GROUP" "BY" (by omega)]
+  | some gbv =>
+    obtain ⟨cols, sets, cube, rollup⟩ := gbv
+    cases cols with
+    | nil => simp [groupOK] at hg
+    | cons e es =>
+      cases sets with
+      | some l => simp [groupOK] at hg
+      | none =>
+        cases cube with
+        | true => simp [groupOK] at hg
+        | false =>
+          cases rollup with
+          | true => simp [groupOK] at hg
+          | false =>
+            simp only [groupOK, Bool.and_eq_true, List.all_eq_true, Bool.not_eq_true'] at hg
+            obtain ⟨⟨he, hes⟩, hnog⟩ := hg
+            intro f hf'
+            simp only [toksGroup, sizeL_cons, sizeL_append, size_opTok] at hf'
+            obtain ⟨g, rfl⟩ : ∃ g, f = g + 3 := ⟨f - 3, by omega⟩
+            have hst : searchTwoUp (opTok "GROUP" :: opTok "BY" :: (W d noX e 8 ++ (toksKeysTail d es ++ fol))) "GROUP" "BY" = true := by
+              have h1 : (opTok "GROUP").srcEqUp "GROUP" = true := by decide
+              have h2 : (opTok "BY").srcEqUp "BY" = true := by decide
+              simp [searchTwoUp, h1, h2]
+            have hng : searchTwoUp (W d noX e 8 ++ (toksKeysTail d es ++ fol)) "GROUPING" "SETS" = false := by
+              obtain ⟨t, ts', hw⟩ := key8_head e he
+              rw [hw] at hnog ⊢
+              have : t.srcEqUp "GROUPING" = false := by simpa [searchStrUp] using hnog
+              cases hx : ts' ++ (toksKeysTail d es ++ fol) with
+              | nil => simp [searchTwoUp, hx]
+              | cons y r => simp [searchTwoUp, hx, this]
+            have h1 : pCompute d (g + 1) (W d noX e 8 ++ (toksKeysTail d es ++ fol)) = .ok (e, toksKeysTail d es ++ fol) :=
+              key8 e he _ (stop8_tail (keysTail_shape es) hs8) (g + 1) (by omega)
+            have h2 := computeList fol hs8 (bd_comma hb) es hes [e] (g + 1) (by omega)
+            show pGroupBy d (g + 3) (toksGroup d (some (.mk (e :: es) none false false)) ++ fol) = _
+            unfold pGroupBy
+            simp only [toksGroup, List.cons_append, List.append_assoc, hst, Bool.not_true, Bool.false_eq_true, if_false, List.drop_succ_cons,
+              List.drop_zero]
+            unfold pGroupCols
+            simp only [hng, Bool.false_eq_true, if_false, h1, h2]
+            unfold pGroupSetsOpt
+            simp [bd_search2 hb "GROUPING" "SETS" (by omega), moveTwoUp, bd_search2 hb "WITH" "CUBE" (by omega),
+              bd_search2 hb "WITH" "ROLLUP" (by omega)]
+
+/-! ### ORDER BY -/
+/-- what may follow an ORDER BY key (after its direction): no direction word, no NULLS, nothing of the compute level -/
+structure OFol (d : Gen.D) (fol : List Tok) : Prop where
+  desc : searchStrUp fol "DESC" = false
+  asc : searchStrUp fol "ASC" = false
+  nf : searchTwoUp fol "NULLS" "FIRST" = false
+  nl : searchTwoUp fol "NULLS" "LAST" = false
+  stop8 : stopLE d 8 fol = true
+theorem OFol.ofBd {k : Nat} {fol : List Tok} (h : Bd d k fol = true) : OFol d fol := by
+  have r1 : rank "DESC" = 0 := by decide
+  have r2 : rank "ASC" = 0 := by decide
+  have r3 : rank "NULLS" = 0 := by decide
+  exact ⟨bd_search h _ (by omega), bd_search h _ (by omega), bd_search2 h _ _ (by omega), bd_search2 h _ _ (by omega),
+    stopLE_mono (bd_stops h) (by omega)⟩
+theorem OFol.comma (x : List Tok) : OFol d (commaTok :: x) := by
+  have h1 : commaTok.srcEqUp "DESC" = false := by decide
+  have h2 : commaTok.srcEqUp "ASC" = false := by decide
+  have h3 : commaTok.srcEqUp "NULLS" = false := by decide
+  refine ⟨by simpa [searchStrUp] using h1, by simpa [searchStrUp] using h2, ?_, ?_, comma_stop8 x⟩
+  · cases x <;> simp [searchTwoUp, h3]
+  · cases x <;> simp [searchTwoUp, h3]
+theorem OFol.tail {tl fol : List Tok} (h : tl = [] ∨ ∃ x, tl = commaTok :: x) (hf : OFol d fol) : OFol d (tl ++ fol) := by
+  rcases h with rfl | ⟨x, rfl⟩
+  · exact hf
+  · exact OFol.comma _
+theorem desc_stop8 (x : List Tok) : stopLE d 8 (opTok "DESC" :: x) = true := by
+  show stopTok d 8 (opTok "DESC") = true
+  cases d <;> decide
+theorem orderTail_ok (e : Expr) (desc : Bool) (fol : List Tok) (hf : OFol d fol) :
+    orderTail e ((if desc then [opTok "DESC"] else []) ++ fol) = .ok (.mk e desc false false, fol) := by
+  unfold orderTail
+  cases desc with
+  | true =>
+    have h1 : searchStrUp (opTok "DESC" :: fol) "DESC" = true := by
+      have : (opTok "DESC").srcEqUp "DESC" = true := by decide
+      simpa [searchStrUp] using this
+    simp [h1, moveTwoUp, hf.nf, hf.nl]
+  | false => simp [hf.desc, hf.asc, moveTwoUp, hf.nf, hf.nl]
+
+theorem orderItem (o : OrderItem) (ho : ordOK d o = true) (fol : List Tok) (hf : OFol d fol) :
+    OkAt (fun f => pOrderItem d f (toksOrdItem d o ++ fol)) (20 * sizeL (toksOrdItem d o) + 3) (o, fol) := by
+  obtain ⟨e, desc, nf, nl⟩ := o
+  simp only [ordOK, Bool.and_eq_true, Bool.not_eq_true'] at ho
+  obtain ⟨⟨he, hnf⟩, hnl⟩ := ho
+  subst hnf; subst hnl
+  intro f hf'
+  simp only [toksOrdItem, sizeL_append] at hf'
+  obtain ⟨g, rfl⟩ : ∃ g, f = g + 1 := ⟨f - 1, by omega⟩
+  have hs : stopLE d 8 ((if desc then [opTok "DESC"] else []) ++ fol) = true := by
+    cases desc with
+    | true => exact desc_stop8 _
+    | false => exact hf.stop8
+  have h1 : pCompute d g (W d noX e 8 ++ ((if desc then [opTok "DESC"] else []) ++ fol)) =
+      .ok (e, (if desc then [opTok "DESC"] else []) ++ fol) := key8 e he _ hs g (by omega)
+  show pOrderItem d (g + 1) (toksOrdItem d (.mk e desc false false) ++ fol) = _
+  unfold pOrderItem
+  simp only [toksOrdItem, List.append_assoc, h1, orderTail_ok e desc fol hf]
+
+theorem ordTail_shape (os : List OrderItem) : toksOrdTail d os = [] ∨ ∃ x, toksOrdTail d os = commaTok :: x := by
+  cases os with
+  | nil => exact Or.inl rfl
+  | cons c cs => exact Or.inr ⟨_, rfl⟩
+theorem orderList (fol : List Tok) (hf : OFol d fol) (hc : searchStr fol "," = false) :
+    ∀ (os : List OrderItem), (∀ o ∈ os, ordOK d o = true) → ∀ acc,
+    OkAt (fun f => pOrderList d f acc (toksOrdTail d os ++ fol)) (20 * sizeL (toksOrdTail d os) + 4) (acc ++ os, fol) := by
+  intro os
+  induction os with
+  | nil =>
+    intro _ acc f hf'
+    obtain ⟨g, rfl⟩ : ∃ g, f = g + 1 := ⟨f - 1, by omega⟩
+    simp [toksOrdTail, pOrderList, hc]
+  | cons o os ih =>
+    intro hos acc f hf'
+    simp only [toksOrdTail, sizeL_cons, sizeL_append] at hf'
+    have hsz : commaTok.size = 1 := by decide
+    obtain ⟨g, rfl⟩ : ∃ g, f = g + 1 := ⟨f - 1, by omega⟩
+    have h1 : pOrderItem d g (toksOrdItem d o ++ (toksOrdTail d os ++ fol)) = .ok (o, toksOrdTail d os ++ fol) :=
+      orderItem o (hos o (by simp)) _ (OFol.tail (ordTail_shape os) hf) g (by omega)
+    have h2 := ih (fun c' hc' => hos c' (by simp [hc'])) (acc ++ [o]) g (by omega)
+    show pOrderList d (g + 1) acc (toksOrdTail d (o :: os) ++ fol) = _
+    unfold pOrderList
+    simp only [toksOrdTail, List.cons_append, List.append_assoc, comma_search, if_true, List.drop_succ_cons, List.drop_zero, h1]
+    simpa using h2
+
+theorem orderBy (ob : Option (List OrderItem)) (ho : orderOK d ob = true) (fol : List Tok) (hb : Bd d 6 fol = true) :
+    OkAt (fun f => pOrderByOpt d f (toksOrder d ob ++ fol)) (20 * sizeL (toksOrder d ob) + 6) (ob, fol) := by
+  have r6 : rank "ORDER" = 6 := by decide
+  cases ob with
+  | none =>
+    intro f hf'
+    obtain ⟨g, rfl⟩ : ∃ g, f = g + 1 := ⟨f - 1, by omega⟩
+    simp [toksOrder, pOrderByOpt, bd_search2 hb "ORDER" "BY" (by omega)]
+  | some l =>
+    cases l with
+    | nil => simp [orderOK] at ho
+    | cons o os =>
+      simp only [orderOK, Bool.and_eq_true, List.all_eq_true] at ho
+      intro f hf'
+      simp only [toksOrder, sizeL_cons, sizeL_append, size_opTok] at hf'
+      obtain ⟨g, rfl⟩ : ∃ g, f = g + 1 := ⟨f - 1, by omega⟩
+      have hst : searchTwoUp (opTok "ORDER" :: opTok "BY" :: (toksOrdItem d o ++ (toksOrdTail d os ++ fol))) "ORDER" "BY" = true := by
+        have h1 : (opTok "ORDER").srcEqUp "ORDER" = true := by decide
+        have h2 : (opTok "BY").srcEqUp "BY" = true := by decide
+        simp [searchTwoUp, h1, h2]
+      have hfo := OFol.ofBd hb
+      have h1 : pOrderItem d g (toksOrdItem d o ++ (toksOrdTail d os ++ fol)) = .ok (o, toksOrdTail d os ++ fol) :=
+        orderItem o ho.1 _ (OFol.tail (ordTail_shape os) hfo) g (by omega)
+      have h2 := orderList fol hfo (bd_comma hb) os ho.2 [o] g (by omega)
+      show pOrderByOpt d (g + 1) (toksOrder d (some (o :: os)) ++ fol) = _
+      unfold pOrderByOpt
+      simp only [toksOrder, List.cons_append, List.append_assoc, hst, if_true, List.drop_succ_cons, List.drop_zero, h1]
+      simp only [h2]; rfl
+
+/-! ### the Hive-only clauses are absent, LIMIT -/
+theorem hiveClauses (fol : List Tok) {k : Nat} (hb : Bd d k fol = true) :
+    OkAt (fun f => pHiveClauses d f fol) 2 ((none, none, none), fol) := by
+  have r1 : rank "SORT" = 0 := by decide
+  have r2 : rank "DISTRIBUTE" = 0 := by decide
+  have r3 : rank "CLUSTER" = 0 := by decide
+  intro f hf'
+  obtain ⟨g, rfl⟩ : ∃ g, f = g + 2 := ⟨f - 2, by omega⟩
+  unfold pHiveClauses pSortBy pByList
+  simp [bd_search2 hb "SORT" "BY" (by omega), bd_search2 hb "DISTRIBUTE" "BY" (by omega), bd_search2 hb "CLUSTER" "BY" (by omega)]
+
+theorem isOkInt_eq {r : Except Err Int} {n : Int} (h : isOkInt r n = true) : r = .ok n := by
+  unfold isOkInt at h
+  split at h
+  · simp only [beq_iff_eq] at h; subst h; rfl
+  · cases h
+theorem limit (lm : Option (Int × Option Int)) (hl : limitOK lm = true) (fol : List Tok) (hb : Bd d 7 fol = true) :
+    pLimit (toksLimit lm ++ fol) = .ok (lm, fol) := by
+  have r7 : rank "LIMIT" = 7 := by decide
+  have r0 : rank "OFFSET" = 0 := by decide
+  have hk : (opTok "LIMIT").srcEqUp "LIMIT" = true := by decide
+  cases lm with
+  | none => exact C03.limit_absent _ (bd_search hb "LIMIT" (by omega))
+  | some p =>
+    obtain ⟨n, o⟩ := p
+    cases o with
+    | none =>
+      simp only [limitOK, limOK, Bool.and_eq_true] at hl
+      exact C03.limit_plain _ _ fol n hk (isOkInt_eq hl.2) (bd_comma hb) (bd_search hb "OFFSET" (by omega))
+    | some m =>
+      simp only [limitOK, limOK, Bool.and_eq_true] at hl
+      have hc : commaTok.srcEq "," = true := by decide
+      exact C03.limit_comma _ _ _ _ fol m n hk (isOkInt_eq hl.2.2) hc (isOkInt_eq hl.1.2)
+
 end TS
